@@ -77,6 +77,34 @@ impl<T> IndexSet<T> {
 
 }
 
+/// indexmap::set::Intersection followed by `.cloned().collect::<Vec<_>>()`: "A lazy iterator producing elements in the intersection of
+/// IndexSets", in the order of the first set
+pub struct Intersection<'a, T> { pub a: &'a IndexSet<T>, pub b: &'a IndexSet<T> }
+pub struct ClonedIntersection<'a, T> { pub a: &'a IndexSet<T>, pub b: &'a IndexSet<T> }
+impl<T> IndexSet<T> {
+    #[verifier::external_body]
+    pub fn intersection<'a>(&'a self, other: &'a IndexSet<T>) -> (r: Intersection<'a, T>)
+        ensures r.a@ == self@, r.b@ == other@,
+    { unimplemented!() }
+
+    /// indexmap: "Moves all values from other into self, leaving other empty" (values already present are kept once)
+    #[verifier::external_body]
+    pub fn append(&mut self, other: &mut IndexSet<T>)
+        ensures final(self)@ == seq_extend(old(self)@, old(other)@), final(other)@ == Seq::<T>::empty(),
+    { unimplemented!() }
+}
+impl<'a, T> Intersection<'a, T> {
+    #[verifier::external_body]
+    pub fn cloned(self) -> (r: ClonedIntersection<'a, T>) ensures r.a@ == self.a@, r.b@ == self.b@ { unimplemented!() }
+}
+impl<'a, T> ClonedIntersection<'a, T> {
+    /// the common elements (the clones are structurally equal to the elements, D1)
+    #[verifier::external_body]
+    pub fn collect(self) -> (r: Vec<T>)
+        ensures forall|x: T| r@.contains(x) == (self.a@.contains(x) && self.b@.contains(x)),
+    { unimplemented!() }
+}
+
 /// indexmap::set::Difference: "A lazy iterator producing elements in the difference of IndexSets", in the order of the first set
 pub struct Difference<'a, T> { pub a: &'a IndexSet<T>, pub b: &'a IndexSet<T>, pub pos: Ghost<int> }
 
